@@ -38,14 +38,14 @@ def _parse(token, sids):
     for i, sid in sorted(enumerate(sids), key=lambda x: -len(x[1])):
         if body.startswith(sid):
             rest = body[len(sid):]
-            m = re.match(r"^(\d+)?(F)?([es])?$", rest)
+            m = re.match(r"^(\d+)?([FK])?([es])?$", rest)
             if not m:
                 continue
             if init and (m.group(1) or m.group(3)):
                 continue
             if not init and m.group(1) is None:
                 continue
-            return init, i, int(m.group(1) or 0), bool(m.group(2)), m.group(3) or ""
+            return init, i, int(m.group(1) or 0), {None: 0, "F": 1, "K": 2}[m.group(2)], m.group(3) or ""
     return None
 
 
@@ -60,12 +60,12 @@ def enc(shape, token, sids):
         return {"tok": token, "k" + token: k}
     if shape == "num":
         if init:
-            return -(i * 2 + (1 if f else 0) + 1)
+            return -(i * 3 + f + 1)
         if not f and k < len(FALSY) and ((i == 0 and kind == "") or (i > 0 and kind == "e")):
             return FALSY[k]
         if kind == "s" and k == 0 and not f:
             return 0.0          # a falsy set_data value
-        return ((i * 50 + k) * 2 + (1 if f else 0)) * 4 + {"": 0, "e": 1, "s": 2}[kind] + 1000
+        return ((i * 50 + k) * 3 + f) * 4 + {"": 0, "e": 1, "s": 2}[kind] + 1000
     raise ValueError(shape)
 
 
@@ -92,18 +92,18 @@ def dec(shape, value, src_sid, sids):
             return bad
         if value < 0:
             c = -value - 1
-            return "init_" + sids[c // 2] + ("F" if c % 2 else "") if c // 2 < len(sids) else bad
+            return "init_" + sids[c // 3] + ["", "F", "K"][c % 3] if c // 3 < len(sids) else bad
         c = value - 1000
         if c < 0:
             return bad
         kind = {0: "", 1: "e", 2: "s"}.get(c % 4)
         c //= 4
-        f = c % 2
-        c //= 2
+        f = c % 3
+        c //= 3
         k, j = c % 50, c // 50
         if kind is None or j >= len(sids):
             return bad
-        return f"{sids[j]}{k}{'F' if f else ''}{kind}"
+        return f"{sids[j]}{k}{['', 'F', 'K'][f]}{kind}"
     raise ValueError(shape)
 
 
